@@ -1,8 +1,10 @@
 \* C03 / Pipeline, REPAIRED design (rule swap once at configuration time).
 \* 2 concurrent requests x 5 extension lists (0-3 extensions) x {none, map, lru1, lru2}
-\* x suggestions on/off x 9 request classes + rejecting mutators; all
-\* interleavings at shared-state steps (local event runs fused).
-\* Measured: 172 264 distinct / 342 572 generated states, depth 15, 11-40 s (4 workers); I1-I5 hold.
+\* x suggestions on/off x 10 request classes (incl. "a validation rule panics") + the valid
+\* request with ONE mutator gate rejecting or PANICKING at every gate position (two failing
+\* gates: MC_PipelineGates.cfg); all interleavings at shared-state steps (local event runs fused).
+\* Measured (round 3): 187 800 distinct / 374 580 generated states, depth 15, 9-31 s (3 workers); I0-I7 hold.
+\* (rounds 1-2, rejecting mutators only: 172 264 / 342 572)
 SPECIFICATION MCSpec
 CONSTANTS
   Reqs = {1, 2}
